@@ -137,12 +137,23 @@ chk('C02', 'model_checking',
     '(TraceHier: the end event is accepted only after a sweep of the last '
     'pass from node 0 on the final input that adopted nothing); every '
     'proposal of every enabled mutator on the output is enumerated and the '
-    'command predicate evaluated; ddSMT is re-run on its own output.',
+    'command predicate evaluated; ddSMT is re-run on its own output. '
+    'Specification -> code: HierSched.tla (Hier.tla restricted to the '
+    'behaviours a scheduler can dictate) is instantiated with the reduction '
+    'system EXTRACTED from the real passes and mutators on tiny inputs; TLC '
+    'checks FixedPoint/LastSweepFull on it for all deterministic commands x '
+    'all dictatable completion orders and prints every behaviour; a sample '
+    '(thorough: all) is replayed into the real pool - the command accepts '
+    'exactly the behaviour\'s verdict function, the scheduler releases the '
+    'checks in its completion order - and the fixed point of each output is '
+    'read off the extracted task table.',
     STRAT_NOTE + ' Commands in this check do not distinguish fresh-variable '
     'names.',
-    'TLC model checking + TLC trace validation + exhaustive external '
-    'enumeration of proposals on the output',
-    'Hier.tla, HierBad.tla, TraceHier.tla', 'DESIGN.md section 5, C02')
+    'TLC model checking + TLC trace validation + replay of TLC-generated '
+    'behaviours into the real strategy + exhaustive external enumeration of '
+    'proposals on the output',
+    'Hier.tla, HierBad.tla, HierSched.tla, TraceHier.tla',
+    'DESIGN.md section 5, C02')
 
 chk('C05', 'model_checking',
     'Hier.tla / Ddmin.tla state Chain, NoStaleAdoption and FinalIsLast; TLC '
@@ -162,11 +173,20 @@ chk('C05', 'model_checking',
     'strategy_ddmin.reduce (stage order, repetition of top-level passes until '
     'they reduce nothing, granularity schedule, reductions counted, return '
     'only after a quiet sweep) are validated by TraceDdminOuter; faulty '
-    'variants of both models are refuted by TLC.',
+    'variants of both models are refuted by TLC. Specification -> code: '
+    'behaviours that TLC generates from HierSched.tla over the reduction '
+    'system extracted from the real passes (all verdict functions x all '
+    'dictatable completion orders) are replayed into the real pool and '
+    'compared step by step (sweeps: pass, skip, input; adoption chain; file '
+    'at exit); the generator of a parallel ddmin round is slowed down '
+    'between its test of `stopped` and its read of the current input (the '
+    'model\'s GenBegin/GenEnd window).',
     STRAT_NOTE,
     'TLC model checking of all interleavings + TLC trace validation of '
-    'free-running and schedule-enumerated parallel executions',
-    'Hier.tla, HierBad.tla, Ddmin.tla, DdminBad.tla, DdminOuter.tla, '
+    'free-running and schedule-enumerated parallel executions + replay of '
+    'TLC-generated behaviours into the real strategy',
+    'Hier.tla, HierBad.tla, HierSched.tla, Ddmin.tla, DdminBad.tla, '
+    'DdminOuter.tla, '
     'Session.tla, TraceHier.tla, TraceDdmin.tla, TraceDdminOuter.tla, '
     'TraceSession.tla',
     'DESIGN.md section 5, C05')
@@ -374,6 +394,11 @@ ENGINES = [
     ('Hier.tla', 'specs/Hier.tla',
      'TLA+ spec: strategy_hierarchical.reduce (producer thread, workers, '
      'main loop, abort flag)'),
+    ('HierSched.tla', 'specs/HierSched.tla',
+     'TLA+ spec: Hier.tla restricted to the behaviours a scheduler can '
+     'dictate, with the decisions recorded; instantiated with the reduction '
+     'system extracted from the real passes (lib/extract.py, lib/hreplay.py) '
+     'and replayed into strategy_hierarchical.reduce'),
     ('Ddmin.tla', 'specs/Ddmin.tla',
      'TLA+ spec: strategy_ddmin (_check_par/_check_seq, TaskGenerator)'),
     ('HierBad.tla', 'specs/HierBad.tla',
